@@ -8,26 +8,34 @@ import SqLemmas.LexLemmas
 namespace Sq
 
 /-- `z` is `r` with the blank `b` inserted in front of its suffix `post` -/
-inductive Cont (b : Char) (post : List Char) : List Char → List Char → Prop
-  | here : Cont b post post (b :: post)
-  | cons (c : Char) {r z : List Char} : Cont b post r z → Cont b post (c :: r) (c :: z)
+inductive Cont (b : Char) (tail post : List Char) : List Char → List Char → Prop
+  | here : Cont b tail post post (b :: tail)
+  | cons (c : Char) {r z : List Char} : Cont b tail post r z → Cont b tail post (c :: r) (c :: z)
 
-theorem Cont.append {b : Char} {post : List Char} (u : List Char) : Cont b post (u ++ post) (u ++ b :: post) := by
+theorem Cont.append {b : Char} {tail post : List Char} (u : List Char) : Cont b tail post (u ++ post) (u ++ b :: tail) := by
   induction u with
   | nil => exact .here
   | cons c u ih => exact .cons c ih
 
-theorem Cont.exists {b : Char} {post r z : List Char} (h : Cont b post r z) : ∃ u, r = u ++ post ∧ z = u ++ b :: post := by
+theorem Cont.exists {b : Char} {tail post r z : List Char} (h : Cont b tail post r z) : ∃ u, r = u ++ post ∧ z = u ++ b :: tail := by
   induction h with
   | here => exact ⟨[], rfl, rfl⟩
   | cons c _ ih => obtain ⟨u, e1, e2⟩ := ih; exact ⟨c :: u, by simp [e1], by simp [e2]⟩
 
-theorem blank_other (b : Char) (hb : isBlank b) : classify b = .other := by
-  rcases hb with rfl | rfl <;> decide
+/-- a character after which no token continues and which extends no operator: a blank or the start of a comment -/
+def isSepC (b : Char) : Prop := b = ' ' ∨ b = '\t' ∨ b = '#' ∨ b = '\n' ∨ b = '\r'
+
+theorem isSepC_of_blank {b : Char} (h : isBlank b) : isSepC b := by
+  rcases h with rfl | rfl
+  · exact Or.inl rfl
+  · exact Or.inr (Or.inl rfl)
+
+theorem blank_other (b : Char) (hb : isSepC b) : classify b = .other := by
+  rcases hb with rfl | rfl | rfl | rfl | rfl <;> decide
 
 /-- a scan of characters of one class stops at the blank as it stopped before -/
-theorem spanClass_cont (p : CC → Bool) (hp : p .other = false) (b : Char) (hb : isBlank b) (post : List Char) :
-    ∀ (s a r : List Char), spanClass p s = some (a, r) → ∀ z, Cont b post r z → spanClass p (a ++ z) = some (a, z) := by
+theorem spanClass_cont (p : CC → Bool) (hp : p .other = false) (b : Char) (hb : isSepC b) (post : List Char) :
+    ∀ (s a r : List Char), spanClass p s = some (a, r) → ∀ z, Cont b tail post r z → spanClass p (a ++ z) = some (a, z) := by
   intro s
   induction s with
   | nil =>
@@ -192,8 +200,8 @@ def okShape (b : Char) (p : List Char × Tk) : Bool :=
   | [_, y] => y != b
   | _ => false
 
-theorem simpleOps_shape (b : Char) (hb : isBlank b) : ∀ p ∈ simpleOps, okShape b p = true := by
-  rcases hb with rfl | rfl <;> decide
+theorem simpleOps_shape (b : Char) (hb : isSepC b) : ∀ p ∈ simpleOps, okShape b p = true := by
+  rcases hb with rfl | rfl | rfl | rfl | rfl <;> decide
 
 /-- a one-character operator found with any continuation is found when a blank follows -/
 theorem find_one_blank (c b : Char) (r t : List Char) : ∀ (ops : List (List Char × Tk)),
@@ -235,29 +243,29 @@ theorem find_one_blank (c b : Char) (r t : List Char) : ∀ (ops : List (List Ch
       rw [hnew]
       exact ih (fun q hq => hsh q (by simp [hq])) lit ty h hl
 
-theorem matchSimple_blank (c b : Char) (hb : isBlank b) (r t : List Char) (lit : List Char) (ty : Tk)
+theorem matchSimple_blank (c b : Char) (hb : isSepC b) (r t : List Char) (lit : List Char) (ty : Tk)
     (h : matchSimple (c :: r) = some (lit, ty)) (hl : lit.length = 1) : matchSimple (c :: b :: t) = some (lit, ty) :=
   find_one_blank c b r t simpleOps (simpleOps_shape b hb) lit ty h hl
 
-theorem Cont.head {b : Char} {post r z : List Char} (h : Cont b post r z) : z.head? = r.head? ∨ z.head? = some b := by
+theorem Cont.head {b : Char} {post r z : List Char} (h : Cont b tail post r z) : z.head? = r.head? ∨ z.head? = some b := by
   cases h with
   | here => exact Or.inr rfl
   | cons c _ => exact Or.inl rfl
 
-theorem Cont.cases_head {b : Char} {post r z : List Char} (h : Cont b post r z) :
+theorem Cont.cases_head {b : Char} {post r z : List Char} (h : Cont b tail post r z) :
     (∃ t, z = b :: t) ∨ z.head? = r.head? := by
   cases h with
   | here => exact Or.inl ⟨_, rfl⟩
   | cons c _ => exact Or.inr rfl
 
-theorem blank_ne (b : Char) (hb : isBlank b) : b ≠ '=' ∧ b ≠ '*' ∧ b ≠ '.' ∧ b ≠ '\n' ∧ b ≠ '"' ∧ b ≠ '\'' := by
-  rcases hb with rfl | rfl <;> decide
+theorem blank_ne (b : Char) (hb : isSepC b) : b ≠ '=' ∧ b ≠ '*' ∧ b ≠ '.' ∧ True ∧ b ≠ '"' ∧ b ≠ '\'' := by
+  rcases hb with rfl | rfl | rfl | rfl | rfl <;> decide
 
 /-- **punctuation**: what `lexPunct` returns for a non-comment character depends on the continuation only through its
     first character, and a blank there changes nothing that a one-character decision had seen -/
-theorem lexPunct_cont (st : LexSt) (c : Char) (cs : List Char) (hc : c ≠ '#') (b : Char) (hb : isBlank b) (post : List Char)
+theorem lexPunct_cont (st : LexSt) (c : Char) (cs : List Char) (hc : c ≠ '#') (b : Char) (hb : isSepC b) (post : List Char)
     {t : Token} {st' : LexSt} {r : List Char} (h : lexPunct st c cs = .tok t st' r) :
-    ∃ u, cs = u ++ r ∧ ∀ z, Cont b post r z → lexPunct st c (u ++ z) = .tok t st' z := by
+    ∃ u, cs = u ++ r ∧ ∀ z, Cont b tail post r z → lexPunct st c (u ++ z) = .tok t st' z := by
   obtain ⟨hbe, hbs, _, _, _, _⟩ := blank_ne b hb
   unfold lexPunct at h
   split at h
@@ -376,7 +384,7 @@ theorem lexPunct_cont (st : LexSt) (c : Char) (cs : List Char) (hc : c ≠ '#') 
             | _ :: _ :: _ :: _, _, hlen, _, _ => simp at hlen
           · cases h
 
-theorem Cont.prepend {b : Char} {post r z : List Char} (u : List Char) (h : Cont b post r z) : Cont b post (u ++ r) (u ++ z) := by
+theorem Cont.prepend {b : Char} {post r z : List Char} (u : List Char) (h : Cont b tail post r z) : Cont b tail post (u ++ r) (u ++ z) := by
   induction u with
   | nil => exact h
   | cons c u ih => exact .cons c ih
@@ -425,9 +433,9 @@ theorem spanClass_head (p : CC → Bool) (c : Char) (cs a r : List Char) (hk : c
 
 /-- **numbers**: `\d+(\.\d+)?` stops at a blank as it stopped before; the two characters it may look at past the integer
     part (`.` and a digit) are the same or a blank -/
-theorem lexNumber_cont (st : LexSt) (c : Char) (cs : List Char) (hd : classify c = .digit) (b : Char) (hb : isBlank b)
+theorem lexNumber_cont (st : LexSt) (c : Char) (cs : List Char) (hd : classify c = .digit) (b : Char) (hb : isSepC b)
     (post : List Char) {t : Token} {st' : LexSt} {r : List Char} (h : lexNumber st c cs = .tok t st' r) :
-    ∃ u, cs = u ++ r ∧ ∀ z, Cont b post r z → lexNumber st c (u ++ z) = .tok t st' z := by
+    ∃ u, cs = u ++ r ∧ ∀ z, Cont b tail post r z → lexNumber st c (u ++ z) = .tok t st' z := by
   have hbo := blank_other b hb
   obtain ⟨_, _, hbdot, _, _, _⟩ := blank_ne b hb
   have hdig : isDigitCC .other = false := rfl
@@ -438,10 +446,10 @@ theorem lexNumber_cont (st : LexSt) (c : Char) (cs : List Char) (hd : classify c
     have hsplit := spanClass_split _ _ _ _ hsp
     obtain ⟨ip', rfl⟩ := spanClass_head isDigitCC c cs ip rest (by rw [hd]; decide) (by rw [hd]; rfl) hsp
     simp only [List.cons_append, List.cons.injEq, true_and] at hsplit
-    have scan : ∀ z1, Cont b post rest z1 → spanClass isDigitCC (c :: (ip' ++ z1)) = some (c :: ip', z1) :=
+    have scan : ∀ z1, Cont b tail post rest z1 → spanClass isDigitCC (c :: (ip' ++ z1)) = some (c :: ip', z1) :=
       fun z1 hz1 => spanClass_cont isDigitCC hdig b hb post _ _ _ hsp z1 hz1
     -- the branch that keeps only the integer part, for any continuation that does not start with `.digit`
-    have intOnly : ∀ z1, Cont b post rest z1 →
+    have intOnly : ∀ z1, Cont b tail post rest z1 →
         (∀ d r2, z1 = '.' :: d :: r2 → classify d ≠ .unknown ∧ classify d ≠ .digit) →
         lexNumber st c (ip' ++ z1) = mk .NUMBER (c :: ip') st (c :: ip').length 0 z1 := by
       intro z1 hz1 hno
@@ -470,7 +478,7 @@ theorem lexNumber_cont (st : LexSt) (c : Char) (cs : List Char) (hd : classify c
           obtain ⟨fp', rfl⟩ := spanClass_head isDigitCC d r2 fp rest2 (by rw [hdg]; decide) (by rw [hdg]; rfl) hsp2
           refine ⟨ip' ++ '.' :: d :: fp', by rw [hsplit, hs2]; simp, ?_⟩
           intro z hz
-          have hz1 : Cont b post ('.' :: d :: r2) ('.' :: (d :: fp' ++ z)) := by
+          have hz1 : Cont b tail post ('.' :: d :: r2) ('.' :: (d :: fp' ++ z)) := by
             rw [hs2]; exact Cont.cons '.' (Cont.prepend (d :: fp') hz)
           unfold lexNumber
           have e : c :: ((ip' ++ '.' :: d :: fp') ++ z) = c :: (ip' ++ '.' :: (d :: fp' ++ z)) := by simp
@@ -606,7 +614,7 @@ theorem not_quote_of_class (c : Char) (h : classify c ≠ .other) : isQuote c = 
   | false => rfl
   | true => exact absurd (quote_other c hq) h
 
-theorem Cont.ne_nil {b : Char} {post r z : List Char} (h : Cont b post r z) : z ≠ [] := by
+theorem Cont.ne_nil {b : Char} {post r z : List Char} (h : Cont b tail post r z) : z ≠ [] := by
   cases h <;> simp
 
 theorem lexPunct_hash (st : LexSt) (cs : List Char) : ∃ st' r, lexPunct st '#' cs = .skip st' r := by
@@ -666,9 +674,9 @@ theorem spanClass_all (p : CC → Bool) : ∀ (s a r : List Char), spanClass p s
       · simp only [hpk] at h; simp at h; obtain ⟨rfl, rfl⟩ := h; intro x hx; cases hx
 
 /-- **strings, numbers, names, punctuation**: one token of `lexWord`, re-lexed with a blank inserted into the continuation -/
-theorem lexWord_cont (st : LexSt) (c : Char) (cs : List Char) (b : Char) (hb : isBlank b) (post : List Char)
+theorem lexWord_cont (st : LexSt) (c : Char) (cs : List Char) (b : Char) (hb : isSepC b) (post : List Char)
     {t : Token} {st' : LexSt} {r : List Char} (h : lexWord st c cs = .tok t st' r) :
-    ∃ u, cs = u ++ r ∧ ∀ z, Cont b post r z → (z = b :: r ∨ ∀ e, lexStep st' r ≠ .err e) →
+    ∃ u, cs = u ++ r ∧ ∀ z, Cont b tail post r z → ((∃ t, z = b :: t) ∨ ∀ e, lexStep st' r ≠ .err e) →
       lexWord st c (u ++ z) = .tok t st' z := by
   have hbo := blank_other b hb
   obtain ⟨_, _, _, _, hbq1, hbq2⟩ := blank_ne b hb
@@ -750,7 +758,7 @@ theorem lexWord_cont (st : LexSt) (c : Char) (cs : List Char) (b : Char) (hb : i
                     | none => rfl
                     | some p => rw [hs] at hold; cases hold
                   obtain ⟨e, he⟩ := quote_step_err { st with pos := st.pos + ['r'].length, depth := st.depth + 0 } q0 rest' hq0 hsb
-                  rcases hside with hh | hh
+                  rcases hside with ⟨_, hh⟩ | hh
                   · injection hh with h1 _; subst h1; rw [hbnq] at hq0; cases hq0
                   · exact hh e he
                 · simp [hq0]
@@ -790,6 +798,15 @@ theorem lexWord_cont (st : LexSt) (c : Char) (cs : List Char) (b : Char) (hb : i
 
 /-! ### comments: the blank may be swallowed -/
 
+theorem dropLine_length_le (cs : List Char) : (dropLine cs).length ≤ cs.length := by
+  induction cs with
+  | nil => simp [dropLine]
+  | cons c cs ih =>
+    simp only [dropLine]
+    split
+    · exact Nat.le_refl _
+    · simp only [List.length_cons]; omega
+
 theorem dropLine_fix (r : List Char) (h : r = [] ∨ ∃ t, r = '\n' :: t) : dropLine r = r := by
   rcases h with rfl | ⟨t, rfl⟩ <;> simp [dropLine]
 
@@ -819,9 +836,9 @@ inductive StepCont (b : Char) (st : LexSt) (u : List Char) (R : LexRes) (r z : L
   | same_skip (st' : LexSt) : R = .skip st' r → lexStep st (u ++ z) = .skip st' z → StepCont b st u R r z
   | swallowed (st' : LexSt) : R = .skip st' r → z = b :: r → lexStep st (u ++ z) = .skip (st'.shift 1) r → StepCont b st u R r z
 
-theorem lexBracket_cont (st : LexSt) (c : Char) (cs : List Char) (b : Char) (hb : isBlank b) (post : List Char)
+theorem lexBracket_cont (st : LexSt) (c : Char) (cs : List Char) (b : Char) (hb : isSepC b) (post : List Char)
     {t : Token} {st' : LexSt} {r : List Char} (h : lexBracket st c cs = .tok t st' r) :
-    ∃ u, cs = u ++ r ∧ ∀ z, Cont b post r z → (z = b :: r ∨ ∀ e, lexStep st' r ≠ .err e) →
+    ∃ u, cs = u ++ r ∧ ∀ z, Cont b tail post r z → ((∃ t, z = b :: t) ∨ ∀ e, lexStep st' r ≠ .err e) →
       lexBracket st c (u ++ z) = .tok t st' z := by
   unfold lexBracket at h
   split at h
@@ -856,9 +873,9 @@ theorem lexBracket_cont (st : LexSt) (c : Char) (cs : List Char) (b : Char) (hb 
 
 /-- **one step that delivers a token**, re-run with a blank inserted into the continuation: the same token, the same
     state, the continuation with the blank -/
-theorem lexStep_cont_tok (st : LexSt) (s : List Char) (b : Char) (hb : isBlank b) (post : List Char)
+theorem lexStep_cont_tok (st : LexSt) (s : List Char) (b : Char) (hb : isSepC b) (post : List Char)
     {t : Token} {st' : LexSt} {r : List Char} (h : lexStep st s = .tok t st' r) :
-    ∃ u, s = u ++ r ∧ ∀ z, Cont b post r z → (z = b :: r ∨ ∀ e, lexStep st' r ≠ .err e) →
+    ∃ u, s = u ++ r ∧ ∀ z, Cont b tail post r z → ((∃ t, z = b :: t) ∨ ∀ e, lexStep st' r ≠ .err e) →
       lexStep st (u ++ z) = .tok t st' z := by
   cases s with
   | nil => simp [lexStep] at h
@@ -958,11 +975,12 @@ theorem lexStep_hash (st : LexSt) (cs : List Char) :
 
 /-- **one step that delivers nothing** (a blank, a line break inside brackets, a comment), re-run with a blank inserted into
     the continuation: the same, or — a comment that runs up to the insertion point — the blank is swallowed -/
-theorem lexStep_cont_skip (st : LexSt) (s : List Char) (b : Char) (hb : isBlank b) (post : List Char)
+theorem lexStep_cont_skip (st : LexSt) (s : List Char) (b : Char) (hb : isSepC b) (post : List Char)
     {st' : LexSt} {r : List Char} (h : lexStep st s = .skip st' r) :
-    ∃ u, s = u ++ r ∧ ∀ z, Cont b post r z →
+    ∃ u, s = u ++ r ∧ ∀ z, Cont b tail post r z →
       lexStep st (u ++ z) = .skip st' z ∨
-        (z = b :: r ∧ (r = [] ∨ ∃ t, r = '\n' :: t) ∧ lexStep st (u ++ z) = .skip (st'.shift 1) r) := by
+        (b ≠ '\n' ∧ r = post ∧ z = b :: tail ∧ (r = [] ∨ ∃ t, r = '\n' :: t) ∧
+          lexStep st (u ++ z) = .skip (st'.shift (1 + (tail.length - (dropLine tail).length))) (dropLine tail)) := by
   obtain ⟨_, _, _, hbnl, _, _⟩ := blank_ne b hb
   cases s with
   | nil => simp [lexStep] at h
@@ -1009,16 +1027,29 @@ theorem lexStep_cont_skip (st : LexSt) (s : List Char) (b : Char) (hb : isBlank 
             rw [← hr] at hshape
             cases hz with
             | here =>
+              by_cases hbnl : b = '\n'
+              · -- a line feed inserted where the comment ended: the comment ends there as before
+                left
+                subst hbnl
+                have hd : dropLine (pre ++ '\n' :: tail) = '\n' :: tail := by
+                  rw [dropLine_append pre _ hpre]; simp [dropLine]
+                show lexStep st ('#' :: (pre ++ '\n' :: tail)) = _
+                rw [lexStep_hash, hd, hst]
+                have e1 : cs.length = pre.length + post.length := by rw [epre]; simp
+                have e2 : (dropLine cs).length = post.length := by rw [← hr]
+                congr 1
+                simp only [LexSt.mk.injEq, and_true, List.length_append, List.length_cons] at *
+                omega
               right
-              refine ⟨rfl, hshape, ?_⟩
-              have hd : dropLine (pre ++ b :: post) = post := by
+              refine ⟨hbnl, rfl, rfl, hshape, ?_⟩
+              have hd : dropLine (pre ++ b :: tail) = dropLine tail := by
                 rw [dropLine_append pre _ hpre]
                 simp only [dropLine, hbnl, if_false]
-                exact dropLine_fix post hshape
-              show lexStep st ('#' :: (pre ++ b :: post)) = _
+              show lexStep st ('#' :: (pre ++ b :: tail)) = _
               rw [lexStep_hash, hd, hst]
               have e1 : cs.length = pre.length + post.length := by rw [epre]; simp
               have e2 : (dropLine cs).length = post.length := by rw [← hr]
+              have e3 : (dropLine tail).length ≤ tail.length := dropLine_length_le tail
               congr 1
               simp only [LexSt.shift, LexSt.mk.injEq, and_true, List.length_append, List.length_cons] at *
               omega
